@@ -3,3 +3,4 @@ open GoRedis
 #print axioms C02_next_chunked
 #print axioms C02_exact_consumption
 #print axioms C02_sequence
+#print axioms C02_source_parser_is_the_modelled_one
